@@ -40,7 +40,8 @@ impl PoolState {
     #[verifier::external_body]
     pub fn deposit(&mut self, lefts: u128, rights: u128) -> (r: u128)
         requires old(self).liqs != 0 ==> old(self).lefts > 0 && old(self).rights > 0
-        ensures old(self).liqs == 0 ==> r == lefts && final(self).lefts == lefts && final(self).rights == rights && final(self).liqs == lefts,
+        ensures final(self).price_accum == old(self).price_accum,
+                old(self).liqs == 0 ==> r == lefts && final(self).lefts == lefts && final(self).rights == rights && final(self).liqs == lefts,
                 old(self).liqs != 0 ==> final(self).liqs as int == sat128(old(self).liqs + r) && final(self).lefts as int == sat128(old(self).lefts + lefts) && final(self).rights as int == sat128(old(self).rights + rights),
     { unimplemented!() }
     /// assert!(self.liqs >= liqs); Ratio::new(liqs, self.liqs) panics on an empty pool
